@@ -132,6 +132,10 @@ def check(prog: Program, rep):
     from rules.c10 import max_occurrence_rule
     from rules.c12 import apply_before_run
     max_occurrence_rule(prog, RuleProxy(rep, "C05.R9"), "C10.R5")
+    # the thresholds of that test are those of rows 7a (a greedy answer accepted below them makes optimize_with_greedy change the answer)
+    from rules.c10 import greedy_rejection, greedy_units
+    greedy_rejection(prog, RuleProxy(rep, "C05.R9"), "C10.R5")
+    greedy_units(prog, RuleProxy(rep, "C05.R9"), "C10.R5")
     apply_before_run(prog, RuleProxy(rep, "C05.R9"), "C12.R5")
     rep.rule("C05.R10", "option interplay: greedy is not taken with given weights, flow-safe paths override (not reject) the other safety options, percentile-trusted "
              "edges carry flow, flow-safe paths only for the whole flow (C10.R8)", floor=6)
